@@ -1360,6 +1360,16 @@ func (il *inliner) stmt(s ast.Stmt) (pre []ast.Stmt, repl ast.Stmt) {
 			}
 		}
 		if call == nil {
+			// a helper call under && / ||: `a && h(x)` becomes  c := a; if c { c = h(x) }  (and dually for ||),
+			// which evaluates exactly what the original evaluates, in the same order; the assignment is then
+			// expanded like any other statement
+			if len(slots) == 1 && il.firstEvaluated(repl, slots[0]) {
+				if p2, ok := il.shortCircuit(slots[0]); ok {
+					pre = append(pre, p2...)
+					il.changed = true
+					continue
+				}
+			}
 			return pre, repl
 		}
 		fo, fd, recv := il.helperCall(call)
@@ -1405,6 +1415,93 @@ func (il *inliner) stmt(s ast.Stmt) (pre []ast.Stmt, repl ast.Stmt) {
 		}
 	}
 	return pre, repl
+}
+
+// firstEvaluated: is *slot the first thing the statement evaluates (so that statements may be put in front)?
+func (il *inliner) firstEvaluated(s ast.Stmt, slot *ast.Expr) bool {
+	switch x := s.(type) {
+	case *ast.IfStmt:
+		return x.Init == nil && slot == &x.Cond
+	case *ast.ReturnStmt:
+		return len(x.Results) == 1
+	case *ast.AssignStmt:
+		if len(x.Rhs) != 1 {
+			return false
+		}
+		for _, l := range x.Lhs {
+			if !il.simple(l) {
+				return false
+			}
+		}
+		return true
+	case *ast.ExprStmt:
+		return true
+	}
+	return false
+}
+
+func (il *inliner) containsHelper(e ast.Expr) bool {
+	found := false
+	ast.Inspect(e, func(x ast.Node) bool {
+		if _, ok := x.(*ast.FuncLit); ok {
+			return false
+		}
+		if c, ok := x.(*ast.CallExpr); ok {
+			if fo, _, _ := il.helperCall(c); fo != nil {
+				found = true
+			}
+		}
+		return !found
+	})
+	return found
+}
+
+// shortCircuit rewrites *slot when it is (a possibly negated, parenthesised) `X && Y` or `X || Y` whose right
+// operand calls a helper: the value is computed into a fresh variable by statements placed in front.
+func (il *inliner) shortCircuit(slot *ast.Expr) ([]ast.Stmt, bool) {
+	// locate the outermost && / || on the spine of !, ( )
+	holder := slot
+	for {
+		switch x := (*holder).(type) {
+		case *ast.ParenExpr:
+			holder = &x.X
+			continue
+		case *ast.UnaryExpr:
+			if x.Op == token.NOT {
+				holder = &x.X
+				continue
+			}
+		}
+		break
+	}
+	be, ok := (*holder).(*ast.BinaryExpr)
+	if !ok || (be.Op != token.LAND && be.Op != token.LOR) || !il.containsHelper(be.Y) {
+		return nil, false
+	}
+	il.n.counter++
+	cv := fmt.Sprintf("_inl%d_c", il.n.counter)
+	var out []ast.Stmt
+	// c := X   (X is evaluated first in the original as well; helper calls inside X are expanded by stmt)
+	first := ast.Stmt(&ast.AssignStmt{Lhs: []ast.Expr{ident(cv)}, Tok: token.DEFINE, Rhs: []ast.Expr{be.X}})
+	p1, r1 := il.stmt(first)
+	out = append(out, p1...)
+	if r1 != nil {
+		out = append(out, r1)
+	}
+	// if c { c = Y }   /   if !c { c = Y }
+	inner := ast.Stmt(&ast.AssignStmt{Lhs: []ast.Expr{ident(cv)}, Tok: token.ASSIGN, Rhs: []ast.Expr{be.Y}})
+	p2, r2 := il.stmt(inner)
+	body := append([]ast.Stmt{}, p2...)
+	if r2 != nil {
+		body = append(body, r2)
+	}
+	var cond ast.Expr = ident(cv)
+	if be.Op == token.LOR {
+		cond = &ast.UnaryExpr{Op: token.NOT, X: ident(cv)}
+	}
+	out = append(out, &ast.IfStmt{Cond: cond, Body: &ast.BlockStmt{List: body}})
+	*holder = ident(cv)
+	return out, true
 }
 
 func (il *inliner) declName() string {
